@@ -203,69 +203,69 @@ def calls_on_this(p, names):
 
 
 def check_derived(rep, prop, db, f, inst):
-    """compound assignment / pre / post increment-decrement are defined through the matching binary operator"""
+    """compound assignment / pre / post increment-decrement are defined through the matching binary operator.
+    Judged on the events, whatever the call structure between the derived forms (prefix through `op=`, postfix through prefix or
+    through `op=`, a shared helper, a lambda): on every path exactly one call of the BINARY operator `base` on *this with the
+    operand given (compound) / the constant 1 (++ --), its result assigned to *this, and the value returned is *this (prefix,
+    compound) or a snapshot of *this taken before the update (postfix)."""
     rule = "R-%s-derived" % prop
     oo = f["oo"]
-    eng = Engine(db, no_inline=NO_INLINE)
+    nparams = len(f["params"])
+    form = "prefix" if oo in ("++", "--") and nparams == 0 else "postfix" if oo in ("++", "--") else "compound"
+    base = oo[0] if form != "compound" else oo[:-1]
+    binary_only = {BASE + o for o in ARITH + CMPS + LOGIC + ["~", "!"]}  # the derived forms themselves are inlined
+    eng = Engine(db, no_inline=binary_only)
     try:
         ps = eng.run(f)
     except Inconclusive as ex:
         rep.inconclusive(rule, site(f), str(ex), inst)
         return
-    nparams = len(f["params"])
+    tag = (" [%s]" % form) if form != "compound" else ""
     for p in ps:
-        if oo in ("++", "--") and nparams == 0:
-            want = "operator" + oo[0]
-            cs = calls_on_this(p, ALL_OPNAMES)
-            good = len(cs) == 1 and q.short(cs[0].a) == want and len(cs[0].b) == 1 and cs[0].b[0] in (C(1), ("rd", ("tmp",)),) or (len(cs) == 1 and q.short(cs[0].a) == want and len(cs[0].b) == 1 and _is_one(p, cs[0].b[0]))
-            stored = _assigned_to_this(p, cs[0] if cs else None)
-            if good and stored and p.retval == THIS_OBJ:
-                rep.ok(rule, site(f) + " [prefix]", "%sx is x = x %s 1 and returns x" % (oo, oo[0]), inst)
+        cs = calls_on_this(p, ALL_OPNAMES)
+        why = None
+        if len(cs) != 1 or q.short(cs[0].a) != "operator" + base or len(cs[0].b) != 1:
+            why = "expected exactly one application of binary operator%s to the object; found %s" % (base, [q.short(c.a) for c in cs])
+        else:
+            a = cs[0].b[0]
+            if form == "compound":
+                rhs = ("pobj", f["params"][0]["n"])
+                src = a
+                for _ in range(4):
+                    c_ = p.state.mem.get(("copyof", src)) if isinstance(src, tuple) else None
+                    if c_ is None:
+                        break
+                    src = c_
+                if not (a == rhs or src == rhs or p.state.mem.get(a) == ("rd", rhs)):
+                    why = "the operand handed to operator%s is %s, not the operand of the compound assignment" % (base, fmt(a)[:80])
+            elif not _is_one(p, a):
+                why = "%s%s applies operator%s with %s instead of 1" % (oo, "x" if form == "prefix" else "", base, fmt(a)[:60])
+        if why is None and not _assigned_to_this(p, cs[0]):
+            why = "the result of operator%s is not assigned to the object" % base
+        if why is None:
+            r = p.retval
+            if form in ("prefix", "compound"):
+                if r != THIS_OBJ:
+                    why = "the value returned is %s, not the updated object" % fmt(r)[:60]
             else:
-                rep.violation(rule, site(f) + " [prefix]", "prefix %s is not `this = this %s 1; return this` (calls: %s)" % (oo, oo[0], [q.short(c.a) + str([fmt(a) for a in c.b]) for c in cs]), f["loc"], inst)
-                return
-        elif oo in ("++", "--") and nparams == 1:
-            cs = calls_on_this(p, ALL_OPNAMES)
-            copies = [e for e in p.events if e.kind == "COPY" and e.b == THIS_OBJ]
-            first_copy = min([p.events.index(e) for e in copies], default=None)
-            call_idx = p.events.index(cs[0]) if cs else None
-            ok = (len(cs) == 1 and q.short(cs[0].a) == "operator" + oo and len(cs[0].b) == 0 and first_copy is not None and first_copy < call_idx)
-            # the returned object must be (a copy of) the snapshot taken before the update
-            snap_ok = False
-            if ok:
-                snap = copies[0].a
-                r = p.retval
+                call_idx = p.events.index(cs[0])
+                snaps = [e.a for i_, e in enumerate(p.events) if e.kind == "COPY" and e.b == THIS_OBJ and i_ < call_idx]
                 chain = {r}
                 cur = r
-                for _ in range(4):
-                    cur = p.state.mem.get(("copyof", cur))
-                    if cur is None:
+                for _ in range(6):
+                    nxt = next((e.b for e in p.events if e.kind == "COPY" and e.a == cur), None)
+                    if nxt is None:
                         break
-                    chain.add(cur)
-                snap_ok = snap in chain or p.state.mem.get(("copyof", r)) == THIS_OBJ and False
-                # copyof chains are collapsed to the original source; compare the COPY events
-                if not snap_ok:
-                    for e in p.events:
-                        if e.kind == "COPY" and e.a == r and e.b == snap:
-                            snap_ok = True
-            if ok and snap_ok:
-                rep.ok(rule, site(f) + " [postfix]", "x%s saves x, applies prefix %s, returns the saved value" % (oo, oo), inst)
-            else:
-                rep.violation(rule, site(f) + " [postfix]", "postfix %s must snapshot the value, apply prefix %s to the object and return the snapshot; found calls %s" % (
-                    oo, oo, [q.short(c.a) for c in cs]), f["loc"], inst)
-                return
-        else:
-            # compound assignment  op=
-            base = oo[:-1]
-            cs = calls_on_this(p, ALL_OPNAMES)
-            rhs = ("pobj", f["params"][0]["n"])
-            good = len(cs) == 1 and q.short(cs[0].a) == "operator" + base and len(cs[0].b) == 1 and (cs[0].b[0] == rhs or p.state.mem.get(("copyof", cs[0].b[0])) == rhs or p.state.mem.get(cs[0].b[0]) == ("rd", rhs))
-            stored = _assigned_to_this(p, cs[0] if cs else None)
-            if good and stored and p.retval == THIS_OBJ:
-                rep.ok(rule, site(f), "x %s y is x = x %s y" % (oo, base), inst)
-            else:
-                rep.violation(rule, site(f), "compound %s is not `this = this %s rhs; return this` (calls: %s)" % (oo, base, [q.short(c.a) for c in cs]), f["loc"], inst)
-                return
+                    chain.add(nxt)
+                    cur = nxt
+                if not any(s_ in chain for s_ in snaps):
+                    why = "the value returned (%s) is not a snapshot of the object taken before the update" % fmt(r)[:60]
+        if why:
+            rep.violation(rule, site(f) + tag, "%s %s is not `x = x %s %s`%s: %s" % (form, oo, base, "y" if form == "compound" else "1",
+                          "" if form != "postfix" else " returning the old value", why), f["loc"], inst)
+            return
+    rep.ok(rule, site(f) + tag, {"prefix": "%sx is x = x %s 1 and returns x" % (oo, base), "postfix": "x%s saves x, applies x = x %s 1, returns the saved value" % (oo, base),
+                                  "compound": "x %s y is x = x %s y" % (oo, base)}[form], inst)
 
 
 def _is_one(p, t):
@@ -301,43 +301,49 @@ def _assigned_to_this(p, call):
     return False
 
 
+def mentions_param_env(e, d, env, depth=0):
+    """does expression e mention the declaration d, directly or through locals / parameters of inlined helpers bound in env?"""
+    if isinstance(e, dict):
+        if e.get("k") == "ref":
+            if e.get("d") == d:
+                return True
+            if depth < 6 and e.get("d") in env and e.get("dk") in ("param", "local"):
+                return mentions_param_env(env[e["d"]], d, env, depth + 1)
+            return False
+        return any(mentions_param_env(v, d, env, depth) for v in e.values() if isinstance(v, (dict, list)))
+    if isinstance(e, list):
+        return any(mentions_param_env(v, d, env, depth) for v in e)
+    return False
+
+
 def exact_offset(db, f):
     """Exact (modulo 2^64) evaluation of `target - base` as a function of the index, over ALL values of the index type,
-    from the instantiated AST (implicit conversions, widths and signedness as clang inserted them).
-    Returns (pieces, index type) or raises interval.Inconclusive."""
+    from the instantiated AST (implicit conversions, widths and signedness as clang inserted them; helpers inlined and updated
+    locals followed: sa/astwalk.py).  Returns (pieces, index type) or raises interval.Inconclusive."""
     from ..interval import Evaluator, trange, Inconclusive as IvI
+    from ..astwalk import Walker, Hooks, Unhandled
     from .c17 import mentions_param
     env = {}
     found = {}
 
-    def walk(x):
-        if isinstance(x, dict):
-            if x.get("s") == "decl":
-                for v in x["v"]:
-                    if v.get("sa") or "init" not in v:
-                        continue
-                    env[v["d"]] = v["init"]
-                    if "var" not in found and (v["t"] or {}).get("k") in ("int", "bool", "enum") and mentions_param(v["init"], f["params"][0]["d"]):
-                        found["var"], found["t"] = v["d"], v["t"]
-            if x.get("k") == "bin" and x.get("op") in ("=", "+=", "-=") and isinstance(x.get("l"), dict) and x["l"].get("k") == "ref" and x["l"].get("dk") == "local" and "tgt" not in found:
-                # a local that is updated after its declaration (`target += stride * n`): its value from here on
-                d_ = x["l"]["d"]
-                if x["op"] == "=":
-                    env[d_] = x["r"]
-                elif d_ in env:
-                    env[d_] = {"k": "bin", "op": x["op"][0], "l": env[d_], "r": x["r"], "t": x.get("t") or x["l"].get("t"), "loc": x.get("loc")}
-            if x.get("k") == "call" and (x.get("fn") or {}).get("n", "").endswith("is_in_same_sandbox") and len(x.get("args", [])) >= 2 and "tgt" not in found:
-                # the target as it is at the check: freeze the locals it mentions
-                found["tgt"] = x["args"][1]
-                found["env"] = dict(env)
-            for v in x.values():
-                if isinstance(v, (dict, list)):
-                    walk(v)
-        elif isinstance(x, list):
-            for v in x:
-                walk(v)
+    class H(Hooks):
+        def decl(self, v):
+            if "init" in v and "var" not in found and (v["t"] or {}).get("k") in ("int", "bool", "enum") and mentions_param_env(v["init"], f["params"][0]["d"], env):
+                found["var"], found["t"] = v["d"], v["t"]
 
-    walk(f["body"])
+        def call(self, e, inlined):
+            if (e.get("fn") or {}).get("n", "").endswith("is_in_same_sandbox") and len(e.get("args", [])) >= 2 and "tgt" not in found:
+                # the target as it is at the check: freeze the locals it mentions
+                found["tgt"] = e["args"][1]
+                found["env"] = dict(env)
+
+        def branch(self, st):
+            pass
+
+    try:
+        Walker(db, H(), env).walk(f["body"])
+    except Unhandled as ex:
+        raise IvI(str(ex))
     if "var" not in found or "tgt" not in found:
         raise IvI("index variable / containment check not found")
     env2 = {k: v for k, v in (found.get("env") or env).items() if k != found["var"]}
